@@ -211,7 +211,7 @@ PROPS = {
         thorough=dict(checks=500, shards=8, timeout=3000),
     ),
     "C19": dict(
-        run="^TestC19$",
+        run="^(TestC19|TestC19Lifecycle)$",
         level="exploration",
         rule=("scripts for a scripted HTTP endpoint (an http.RoundTripper, no sockets): 1-12 (thorough: 30) messages with JSON payloads / attribute maps / ordering keys as in C02, each with a planned "
               "sequence of replies per push - 0-2 failures drawn from every non-success status 100-599 and transport errors (quick: a seed-dependent seventh of 200-599 plus the neighbours of the "
